@@ -384,3 +384,17 @@ def check_C16(tier):
                           "(singles, runs of 2-4, scattered pairs/triples; thorough: all patterns with <= 4 faults) "
                           "x {deterministic, declared noise, specified noise}; GP.fit raises LinAlgError at exactly those invocations")
     return v
+
+
+def check_C08(tier):
+    from . import comp_bounds
+    v = Verdict("C08", tier, "model_checking")
+    st, cases = comp_bounds.run(v, tier)
+    v.coverage.update({"states": st, "transitions": cases, "traces_validated_against_impl": cases,
+                       "evaluations": cases, "samples": v.coverage.get("bounds_samples", []),
+                       "exhaustive": True,
+                       "rule": "every canonical one-coordinate definition (special-value mask x weak ordering of finite fields) "
+                               "x value maps x spellings; D=2,3 products of class representatives"})
+    v.coverage["distinct_nontrivial"] = st
+    v.assumptions.append("validity is transcribed from the property statement (BoundsCheck.tla), not from the code")
+    return v
